@@ -12,12 +12,12 @@ package ahtree
 //@ func (*AHtree).InclusionProof
 //@   assigns internal
 //@   ensures order: err == nil ==> i <= j
-//@   ensures nonempty: err == nil && i < j ==> len(p) > 0
+//@   ensures nonempty: err == nil && 1 <= i && i < j ==> len(p) > 0
 
 //@ func (*AHtree).ConsistencyProof
 //@   assigns internal
 //@   ensures order: err == nil ==> i <= j
-//@   ensures nonempty: err == nil && i < j ==> len(p) > 0
+//@   ensures nonempty: err == nil && 1 <= i && i < j ==> len(p) > 0
 
 // The recursive workers. A proof is only ever extended (every step prepends to or appends the running proof), and the
 // step of the highest bit of j-1 always contributes one node: when the caller passes height = bit length of j-1
